@@ -48,7 +48,16 @@ func restartCase(rt *rapid.T, prop string, levels []byte, pointLimit int) {
 	for _, k := range points {
 		for _, late := range []bool{false, true} {
 			accepted := acceptedBefore(msgs0, k)
-			n, pend := h0.restart(restartOpts{K: k, Late: late, Config: cfg})
+			// (1 in 4: a first AdoptSession runs into a transient Load error and
+			// is simply tried again: nothing accepted may get lost over that)
+			failLoad := 0
+			if rapid.IntRange(0, 3).Draw(rt, "transientLoadErrorAtFirstTry") == 0 {
+				failLoad = rapid.IntRange(1, 6).Draw(rt, "nthLoad")
+			}
+			n, pend := h0.restart(restartOpts{K: k, Late: late, Config: cfg, PreAdoptFailLoad: failLoad})
+			if n.PreAdoptRan && n.PreAdoptFatal != nil {
+				n.label("adopted-at-the-second-try-after-a-Load-error")
+			}
 			adoptions++
 			if len(pend) > 0 {
 				nontrivial = true
